@@ -82,7 +82,7 @@ def cases(tier, seed):
     yield ['interp', 256 if tier == 'quick' else 4096, None]
 
 
-def build(wi, nie=False):
+def build(wi, nie=False, mod=None):
     sizes, unit = world_list()[wi]
     names = ['B', 'C', 'D'][:len(sizes)]
     layers = []
@@ -98,17 +98,20 @@ def build(wi, nie=False):
             tests.append({'n': '%s%d' % (nm.lower(), i), 'l': nm, 's': 'pass'})
     for i in range(unit):
         tests.append({'n': 'u%d' % i, 'l': None, 's': 'pass'})
-    return {'layers': layers, 'tests': tests}
+    sp = {'layers': layers, 'tests': tests}
+    if mod:
+        sp['mod'] = mod
+    return sp
 
 
-def lname(t):
-    return 'zope.testrunner.layer.UnitTests' if t['l'] is None else 'vtw.tests.' + t['l']
+def lname(t, mod='vtw.tests'):
+    return 'zope.testrunner.layer.UnitTests' if t['l'] is None else mod + '.' + t['l']
 
 
 def unshuffled(spec):
     d = {}
     for t in spec['tests']:
-        d.setdefault(lname(t), []).append(t['n'])
+        d.setdefault(lname(t, spec.get('mod') or 'vtw.tests'), []).append(t['n'])
     return d
 
 
@@ -133,7 +136,7 @@ def parse_listing(text):
 
 
 def executed_orders(res, spec):
-    by = {t['n']: lname(t) for t in spec['tests']}
+    by = {t['n']: lname(t, spec.get('mod') or 'vtw.tests') for t in spec['tests']}
     d = {}
     procs = {}
     for ev in res.trace:
@@ -235,6 +238,19 @@ def run_modes(wi, seeds, listonly):
             ex, _ = executed_orders(r, spec)
             if ex != {L: ref[L]}:
                 viol.append(('layer_filter_changes_order', sig, 'seed %s --layer %s: executed %s, unfiltered order %s' % (s, L, ex, ref[L])))
+        # the same world in a module whose layers sort AFTER the unit-test
+        # layer: de-selecting the unit tests (-f, --layer) must not change the
+        # order of the others
+        spz = build(wi, mod='zzw.tests')
+        bz = unshuffled(spz)
+        rz = ref_orders(s, bz)
+        for flt in (['-f'], ['--layer', 'zzw'], ['--layer', '!UnitTests']):
+            r = runrt.run_world(spz, seed_args(s) + flt, probe=False)
+            evals += 1
+            ex, _ = executed_orders(r, spz)
+            want = {L: o for L, o in rz.items() if L.startswith('zzw')}
+            if ex != want:
+                viol.append(('layer_filter_changes_order', {'mode': 'filter_after_unit'}, 'seed %s %s (module zzw.tests): executed %s, unfiltered order %s' % (s, flt, ex, want)))
     return evals, viol
 
 
